@@ -598,6 +598,7 @@ def h_atoms(e0: int, r0: int, ap: int, q0: Optional[int], q1: int, i0: Optional[
     pre: 0 <= e0 < len(ELEMS) and 0 <= r0 < 3 and -1 <= ap <= 2
     pre: (q0 is None or -4 <= q0 <= 4) and -4 <= q1 <= 4 and (i0 is None or 1 <= i0 <= 300) and (h0 is None or 0 <= h0 <= 4)
     pre: SPLIT < 0 or e0 == SPLIT
+    pre: not QUICK or ap <= 0
     post: _
     """
     return h_frag(2, 0, 0, e0, 1, q0, q1, 0, i0, None, r0, 1, h0, None, ap, 0, 2, 0, 0, False)
@@ -826,10 +827,10 @@ def run(rep, tier):
         sr.discharge(rep, label, paths, timeout=T, replay=rp, expect_sat=ctrl)
     # ---- XH
     env = {} if q else {"XH_THOROUGH": "1"}
-    # quick tier: no mark and one mark of each kind (begin / end / bold), elements C (implicit), N, Fe, Og; the thorough tier takes every mark and element
-    specs = [{"fn": "h_bonds", "timeout": 900 if q else 3000, "split": 4 * mk + g, "env": env} for mk in ((0, 1, 4, 5) if q else range(len(MARKS))) for g in range(len(GRAPHS))]
+    # quick tier: no mark, a wedge and a bold bond (hash / end variants differ only in the sign and the argument order handed to _cdxml_3dify_, which the SR part covers), elements C (implicit), N, Fe, Og; the thorough tier takes every mark and element
+    specs = [{"fn": "h_bonds", "timeout": 900 if q else 3000, "split": 4 * mk + g, "env": env} for mk in ((0, 1, 5) if q else range(len(MARKS))) for g in range(len(GRAPHS))]
     specs += [{"fn": "h_atoms", "timeout": 900 if q else 3000, "split": e, "env": env} for e in ((0, 2, 5, 7) if q else range(len(ELEMS)))]
-    specs += [{"fn": "h_lookup", "timeout": 900 if q else 3000, "split": sp, "env": env} for sp in range(9)]
+    specs += [{"fn": "h_lookup", "timeout": 900 if q else 3000, "split": sp, "env": env} for sp in ((0, 4, 8) if q else range(9))]      # quick: first lookup k in layout k
     xh.run_obligations(rep, "harness.C13", specs)
 
 
